@@ -117,7 +117,8 @@ bool BuildNode::configureAttribute(const ConfigureContext& ctx, StringRef name,
     exclusionPatterns = basic::StringList(values);
     return true;
   } else if (name == "must-scan-after-paths") {
-    mustScanAfterPaths = basic::StringList(values).getValues();
+    mustScanAfterPathsStorage = basic::StringList(values);
+    mustScanAfterPaths = mustScanAfterPathsStorage.getValues();
     return true;
   }
 
